@@ -1494,9 +1494,7 @@ impl<'a, 'b> InternalDelphiLogicalLineParser<'a, 'b> {
         }
 
         let paren_level = self.paren_level;
-        while !(matches!(self.get_token_type::<-1>(), Some(TT::Op(OK::RParen)))
-            && paren_level >= self.paren_level)
-        {
+        loop {
             match self.get_current_token_type() {
                 Some(TT::Op(OK::Semicolon | OK::LParen)) => fix_next_eq(self),
                 None => break,
@@ -1532,6 +1530,11 @@ impl<'a, 'b> InternalDelphiLogicalLineParser<'a, 'b> {
                 _ => {}
             };
             self.next_token();
+            if matches!(self.get_token_type::<-1>(), Some(TT::Op(OK::RParen)))
+                && paren_level >= self.paren_level
+            {
+                break;
+            }
         }
     }
     fn parse_property_declaration(&mut self) {
